@@ -93,7 +93,7 @@ class ParentEnv:
             yield from ex.fork_bool(st, self.has_var(keys))
 
     def value(self, keys):
-        return Adt('ValueCow', 'Owned', [Opaque((self.tag + 'VAL', keys))])
+        return Adt('ValueCow', 'Owned', [Abs('token', found_handler, (self.tag + 'VAL', keys))])
 
     def handler(self, ctx, me, args, st):
         m = method_of(ctx.callee)
@@ -206,6 +206,8 @@ def found_handler(ctx, me, args, st):
     m = method_of(ctx.callee)
     if m == 'to_value':
         return ret(st, Opaque(('VALUEOF', me.data)))
+    if m in ('as_view', 'as_value'):
+        return ret(st, args[0])
     return None
 
 
@@ -233,3 +235,205 @@ def value_token_st(st, v):
     if isinstance(v, Adt) and v.ty == 'ValueCow':
         return value_token_st(st, v.items[0])
     return value_token(v)
+
+
+# ---------------------------------------------------------------- output sink (io::Write) with a symbolic failure point
+class SinkEnv:
+    """`&mut dyn Write`: every write/write_all/write_fmt call is logged; the K-th call fails for a solver-chosen K
+    (K = 0: never fails).  After the failure every further call is logged as 'AFTER-FAIL' (and fails too)."""
+
+    def __init__(self, tag='W', may_fail=True):
+        self.tag = tag; self.may_fail = may_fail
+        self.K = z3.Int(f'{tag}_fail_at')
+
+    def log(self, st):
+        return st.env.get('sink:' + self.tag, ())
+
+    def failed(self, st):
+        return st.env.get('sinkfailed:' + self.tag, False)
+
+    def write(self, ex, st, entry):
+        """generator of (st, ok: bool)"""
+        key = 'sink:' + self.tag
+        n = len([e for e in st.env.get(key, ()) if e[0] != 'AFTER-FAIL']) + 1
+        if self.failed(st):
+            st.env[key] = st.env.get(key, ()) + (('AFTER-FAIL', entry),)
+            yield st, False; return
+        if not self.may_fail:
+            st.env[key] = st.env.get(key, ()) + (('ok', entry),)
+            yield st, True; return
+        for s2, fails in ex.fork_bool(st, self.K == n):
+            if fails:
+                s2.env[key] = s2.env.get(key, ()) + (('FAIL', entry),)
+                s2.env['sinkfailed:' + self.tag] = True
+                yield s2, False
+            else:
+                s2.env[key] = s2.env.get(key, ()) + (('ok', entry),)
+                yield s2, True
+
+    def handler(self, ctx, me, args, st):
+        from mirsym.models.fmt import render_parts
+        m = method_of(ctx.callee)
+        io_err = Err(Opaque(('io::Error', self.tag)))
+        if m == 'write_fmt':
+            entry = ('fmt', tuple(render_parts(st, args[1])))
+        elif m in ('write_all', 'write'):
+            b = st.deref_all(args[1])
+            entry = ('bytes', repr(b))
+        elif m == 'flush':
+            return ret(st, Ok(UNIT))
+        else:
+            return None
+        def g():
+            for s2, ok in self.write(ctx.ex, st, entry):
+                if m == 'write':
+                    yield s2, 'ret', (Ok(Int(z3.BitVec(f'{self.tag}_n{len(self.log(s2))}', 64), 'usize')) if ok else io_err)
+                else:
+                    yield s2, 'ret', (Ok(UNIT) if ok else io_err)
+        return g()
+
+    def abs(self):
+        return Abs('sink:' + self.tag, self.handler, self)
+
+    def text(self, st):
+        """accepted output as a list of entries"""
+        return [e[1] for e in self.log(st) if e[0] == 'ok']
+
+
+# ---------------------------------------------------------------- registers / interrupt register
+def interrupt_place(st, owner='P'):
+    key = 'ireg:' + owner
+    if key not in st.env:
+        st.env[key] = st.alloc(Adt('InterruptRegister', None, [NONE], ['interrupt']))
+    return Ref(st.env[key], (), True)
+
+
+def interrupt_get(st, owner='P'):
+    r = interrupt_place(st, owner)
+    v = st.deref(r).items[0]
+    return None if v.variant == 'None' else v.items[0].variant
+
+
+def interrupt_set(st, what, owner='P'):
+    r = interrupt_place(st, owner)
+    st.store(r, Adt('InterruptRegister', None, [NONE if what is None else Some(Adt('Interrupt', what, []))], ['interrupt']))
+
+
+def registers_models():
+    """Registers::get_mut::<T>() -> RefMut<T>: one place per (registers object, T); borrow-tracked like a RefCell"""
+    from mirsym.models.core import panic as _panic
+    def m_get_mut(ctx, args, st):
+        regs = st.deref_all(args[0])
+        owner = regs.tag[0].replace('_REGISTERS', '') if isinstance(regs, Opaque) else None
+        if owner is None: raise Unsupported(f'Registers::get_mut on {regs!r}')
+        T = re.search(r'get_mut::<(.*)>$', ctx.callee, re.S).group(1).split('::')[-1]
+        if T == 'InterruptRegister':
+            place = interrupt_place(st, owner)
+        else:
+            key = f'reg:{owner}:{T}'
+            if key not in st.env:
+                raise Unsupported(f'register {T} not provided by the obligation')
+            place = Ref(st.env[key], (), True)
+        bk = ('borrow', place.alloc, place.path)
+        readers, writer = st.env.get(bk, (0, False))
+        if writer or readers:
+            return _panic(st, f'Registers::get_mut::<{T}>: already borrowed (BorrowMutError)')
+        st.env[bk] = (0, True)
+        return ret(st, Py('cellref', (place, True)))
+    return [(r'^(?:liquid_core::)?(?:runtime::)?(?:runtime::)?Registers::get_mut::<', m_get_mut, 'model:Registers::get_mut (one RefCell-tracked place per register type)')]
+
+
+# ---------------------------------------------------------------- abstract child renderable
+def describe_scope(st, rt):
+    """python description of the runtime a child was handed"""
+    v = st.deref_all(rt)
+    if isinstance(v, Abs): return ('abs', v.name)
+    if isinstance(v, Adt) and v.ty in ('StackFrame', 'SandboxedStackFrame'):
+        data = st.deref_all(v.items[2])
+        d = {}
+        if hasattr(data, 'keys') and hasattr(data, 'items'):
+            for k, x in zip(data.keys, data.items):
+                d[k] = describe_value(st, x)
+        else:
+            d = repr(data)
+        return (v.ty, describe_scope(st, v.items[0]), tuple(sorted(d.items())) if isinstance(d, dict) else d)
+    if isinstance(v, Adt) and v.ty in ('GlobalFrame', 'IndexFrame'):
+        return (v.ty, describe_scope(st, v.items[0]))
+    return ('other', repr(v))
+
+
+def describe_value(st, x):
+    v = st.deref_all(x)
+    if isinstance(v, Adt) and v.names:
+        out = []
+        for n, f in zip(v.names, v.items):
+            if isinstance(f, (Int, Bool)):
+                c = f.concrete(); out.append((n, c if c is not None else str(f)))
+            elif isinstance(f, Adt) and f.ty == 'Option':
+                out.append((n, None if f.variant == 'None' else describe_value(st, f.items[0])))
+            else:
+                out.append((n, describe_value(st, f)))
+        return (v.ty, tuple(out))
+    if isinstance(v, Adt) and v.ty == 'ValueCow': return describe_value(st, v.items[0])
+    if isinstance(v, Adt) and v.ty == 'Value' and v.variant == 'Scalar':
+        inner = v.items[0].items[0]
+        p = inner.items[0]
+        if isinstance(p, (Int, Bool)): return (inner.variant, p.concrete() if p.concrete() is not None else str(p))
+        if isinstance(p, StrV): return ('Str', p.concrete())
+        return (inner.variant, repr(p))
+    if isinstance(v, Abs): return ('abs', v.data if v.data is not None else v.name)
+    if isinstance(v, Opaque): return ('tok', value_token(v))
+    return repr(v)
+
+
+class ChildEnv:
+    """abstract renderable: when rendered it logs (name, writer, scope), then nondeterministically
+       writes 0..max_writes times to the sink it was given, leaves any interrupt in the register, and returns Ok or Err.
+       A child that sees its sink fail returns Err (the contract every real renderable is checked against in C10)."""
+
+    def __init__(self, name, sink=None, max_writes=1, may_err=True, may_interrupt=True, owner='P'):
+        self.name, self.sink, self.max_writes, self.may_err, self.may_interrupt, self.owner = name, sink, max_writes, may_err, may_interrupt, owner
+        self.choice = z3.Int(f'child_{name}_choice')
+
+    def handler(self, ctx, me, args, st):
+        m = method_of(ctx.callee)
+        if m != 'render_to': return None
+        ex = ctx.ex
+        nth = len([c for c in calls(st, 'child') if c[1][0] == self.name])
+        log_call(st, 'child', (self.name, describe_scope(st, args[2]), repr(st.deref_all(args[1]))))
+        def g():
+            # 1. optional writes through the writer that was passed in
+            def after_writes(s, wrote_ok):
+                if not wrote_ok:
+                    yield s, 'ret', Err(Adt('LiquidError', None, [Opaque(('msg', 'child saw sink failure'))])); return
+                opts = [('ok', None)]
+                if self.may_interrupt: opts += [('ok', 'Break'), ('ok', 'Continue')]
+                if self.may_err: opts.append(('err', None))
+                v = z3.Int(f'child_{self.name}_{nth}_outcome')
+                for i, (res, intr) in enumerate(opts):
+                    cond = (v == i)
+                    s2 = s.clone() if i < len(opts) - 1 else s
+                    s2.assume(cond)
+                    s2.env['child_outcomes'] = s2.env.get('child_outcomes', ()) + ((self.name, nth, res, intr),)
+                    if intr: interrupt_set(s2, intr, self.owner)
+                    yield s2, 'ret', (Ok(UNIT) if res == 'ok' else Err(Adt('LiquidError', None, [Opaque(('msg', f'child {self.name} failed'))])))
+            w = st.deref_all(args[1])
+            if self.max_writes and isinstance(w, Abs) and isinstance(w.data, SinkEnv):
+                wv = z3.Int(f'child_{self.name}_{nth}_writes')
+                for s1, does in ex.fork_bool(st, wv == 1):
+                    if does:
+                        for s2, ok in w.data.write(ex, s1, ('child', self.name, nth)):
+                            yield from after_writes(s2, ok)
+                    else:
+                        yield from after_writes(s1, True)
+            else:
+                yield from after_writes(st, True)
+        return g()
+
+    def abs(self):
+        return Abs('child:' + self.name, self.handler, self)
+
+
+def mk_template(st, children):
+    """a real liquid_core::Template whose elements are abstract children (Box<dyn Renderable>)"""
+    return Adt('Template', None, [VecV([st.ref(c.abs(), True) for c in children])], ['elements'])
